@@ -319,6 +319,10 @@ func TestConstructed(t *testing.T) {
 			kit.R.ClassN("construct:autolink-in-image-description", int64(altAutoCount))
 			altAutoCount = 0
 		}
+		if nulCount > 0 {
+			kit.R.ClassN("spelling:nul-in-code", int64(nulCount))
+			nulCount = 0
+		}
 		if longLabelCount > 0 {
 			kit.R.ClassN("spelling:label-of-999-characters", int64(longLabelCount))
 			longLabelCount = 0
